@@ -248,6 +248,17 @@ def gen_case(rng: random.Random, i: int) -> dict:
         init2 = ["init", init1[1], init1[2], init1[3] + u * rng.randint(4, 16), mi]
     j = len(cmds)
     case = {"clock": clock, "strategy": strategy, "models": models, "cmds": cmds, "twin_from": j, "hist_kind": kind}
+    if rng.random() < 0.25:
+        # initial methods registered with the simulator from outside the model before the first initialize:
+        # they belong to every later replication as well
+        nh = min(len(m["prog"]) for m in models) - 1
+        case["initial"] = []
+        for _ in range(rng.randint(1, 2)):
+            body = [["sched", rng.choice([["rel", u * rng.randint(0, 6)], ["now"], ["rel", u * rng.randint(1, 12)]]),
+                     rng.choice(S.PRIOS), rng.randint(1, nh)]]
+            if rng.random() < 0.4:
+                body.append(["obs", rng.randrange(3), rng.randint(-3, 9)])
+            case["initial"].append(body)
     if kind == "asap":
         init2 = init2 + ["asap"]
         case["slow"] = {rng.choice(["stop", "stop", "endrepl"]): 0.3}
@@ -424,6 +435,16 @@ def oracle(case, obs):
 SK = {"counter": "KCounter", "tally": "KTally", "persistent": "KPersistent"}
 
 
+def with_initial(m, initial):
+    """the initial methods (performed at the end of every initialize, after construct_model, before the warm-up is
+    scheduled) as a tail of the construct_model body"""
+    if not initial:
+        return m
+    m2 = dict(m)
+    m2["prog"] = [list(m["prog"][0]) + [a for body in initial for a in body]] + [list(b) for b in m["prog"][1:]]
+    return m2
+
+
 def c_xprog(m):
     stats = C.clist(f"({C.cnat(k)}, {SK[kind]}, {C.cnat(sid)})" for k, kind, sid in m["stats"])
     prog = C.clist(C.clist(S.c_action(a) for a in body) for body in m["prog"])
@@ -473,7 +494,7 @@ def coq_repr(case, obs):
 def c_xcase(case, obs):
     names = []
     for mi, m in enumerate(case["models"]):
-        names.append(c_xprog(m))
+        names.append(c_xprog(with_initial(m, case.get("initial"))))
     hist = []
     cur = 0
     for c in case["cmds"]:
@@ -770,7 +791,7 @@ def ycoq_compare(pid, items, shard=60):
         try:
             if y_repr(c, o) is None:
                 nd = draw_counts(c, o)
-                defs = [c_ymodel(m, nd[mi]) for mi, m in enumerate(c["models"])]
+                defs = [c_ymodel(with_initial(m, c.get("initial")), nd[mi]) for mi, m in enumerate(c["models"])]
                 lets = " ".join(f"let m{mi} := {t} in" for mi, t in enumerate(defs))
                 texts[i] = f"({lets} {c_ycase(c, o, ['m%d' % mi for mi in range(len(defs))])})"
         except (ValueError, KeyError):
@@ -809,7 +830,8 @@ def ycoq_view(pid, case, obs):
     d.mkdir(parents=True, exist_ok=True)
     f = d / "yview.v"
     nd = draw_counts(case, obs)
-    defs = "\n".join(f"Definition m{mi} : ymodel := {c_ymodel(m, nd[mi])}." for mi, m in enumerate(case["models"]))
+    defs = "\n".join(f"Definition m{mi} : ymodel := {c_ymodel(with_initial(m, case.get('initial')), nd[mi])}."
+                     for mi, m in enumerate(case["models"]))
     f.write_text("\n".join(YPRELUDE) + "\n" + defs + "\n"
                  f"Definition c : ycase := {c_ycase(case, obs, ['m%d' % mi for mi in range(len(case['models']))])}.\n"
                  "Eval vm_compute in (ycase_parts nint c).\nEval vm_compute in (ycase_view nint c).\n")
@@ -833,6 +855,16 @@ def shrink(case, pred, budget=60):
                 cand["twin_from"] -= 1
             if not cand["cmds"] or cand["cmds"][0][0] != "init":
                 continue
+            budget -= 1
+            if pred(cand):
+                cur = cand
+                changed = True
+                break
+        if changed or budget <= 0:
+            continue
+        for ix in range(len(cur.get("initial") or [])):
+            cand = copy.deepcopy(cur)
+            del cand["initial"][ix]
             budget -= 1
             if pred(cand):
                 cur = cand
@@ -873,7 +905,8 @@ RULE = ("generated (history, new replication) pairs on int / float / Duration cl
         "model programs taking turns; models with / without SimCounter, SimTally, SimPersistent built in construct_model "
         "(also two statistics on one data stream) and with / without seeded MersenneTwister streams re-created or re-seeded in "
         "construct_model whose draws set delays and observed values; the new replication has its own start / warm-up / end "
-        "(after an ended history mostly a longer one) and is run by start or in pieces; each case is run on one simulator "
+        "(after an ended history mostly a longer one) and is run by start or in pieces; a quarter of the cases register 1-2 initial "
+        "methods with simulator.add_initial_method from outside the model before the first initialize (they schedule events / observe); each case is run on one simulator "
         "and, from its last initialize on, on a brand-new simulator and model object; plus a malformed stream (duplicate "
         "statistic keys, initialize with a bad argument, initialize from a handler). non-trivial = distinct case whose "
         "history executed an event or left one pending and whose new replication executed >= 3 events")
